@@ -77,6 +77,17 @@ def _case(draw):
     case = {"seq": spec, "num": num, "den": den, "key": draw(st.one_of(st.none(), st.sampled_from(gens.KEYS)))}
     # what happens between construction and copy: nothing, or a read of the bar's absolute view / duration
     case["consult"] = draw(st.sampled_from([None, None, "abs", "duration"]))
+    if draw(st.integers(0, 6)) == 0:
+        # "any sequence": an arbitrary, possibly ill-formed relative message list (unclosed, re-struck, orphaned notes; the first
+        # message may be an unclosed note-on), durations around the capacity
+        m = st.one_of(st.tuples(st.just("w"), st.one_of(st.integers(1, 12), st.integers(1, max(1, cap)))),
+                      st.tuples(st.just("on"), st.integers(0, 1), st.sampled_from([60, 61]), st.integers(1, 127)),
+                      st.tuples(st.just("off"), st.integers(0, 1), st.sampled_from([60, 61])),
+                      st.tuples(st.just("on"), st.integers(0, 1), st.sampled_from([60, 61]), st.integers(1, 127)))
+        case["raw"] = [list(x) for x in draw(st.lists(m, min_size=1, max_size=10))]
+        if draw(st.booleans()):
+            case["raw"].insert(0, ["on", 0, 62, 80])        # never closed, in front of everything
+        return case
     if draw(st.integers(0, 5)) == 0:
         # grace notes: a note-on directly followed by its note-off (zero length) in a hand-written relative message list;
         # pitches outside the pool of the ordinary notes. Only event-level comparisons apply to such input.
@@ -95,7 +106,23 @@ def check(case):
     out = Outcome()
     num, den = case["num"], case["den"]
     cap = 96 * num // den
-    if case.get("grace"):
+    if case.get("raw"):
+        out.label("ill-formed-input")
+        try:
+            msgs = []
+            for m in case["raw"]:
+                if m[0] == "w":
+                    msgs.append(Message(message_type=MT.WAIT, time=m[1]))
+                elif m[0] == "on":
+                    msgs.append(Message(message_type=MT.NOTE_ON, channel=m[1], note=m[2], velocity=m[3]))
+                else:
+                    msgs.append(Message(message_type=MT.NOTE_OFF, channel=m[1], note=m[2]))
+            seq = Sequence(relative_sequence=RelativeSequence(msgs))
+            ev0, d0 = O.seq_events(seq)
+        except Exception as e:
+            out.inconclusive = f"input-construction-raised:{type(e).__name__}"
+            return out
+    elif case.get("grace"):
         out.label("grace-notes")
         try:
             msgs = build.to_relative(build.abs_messages(case["seq"]))
